@@ -6,6 +6,53 @@ use des::prelude::*;
 use std::sync::{Arc, Mutex};
 use vcheck::{json, quiet_catch, run_property, Ctx, Property, Tier, Value};
 
+// ---- start stages of modules created from an NDL description --------------------------------
+
+struct Stg {
+    log: Log,
+    stages: usize,
+}
+impl Module for Stg {
+    fn num_sim_start_stages(&self) -> usize {
+        self.stages
+    }
+    fn at_sim_start(&mut self, st: usize) {
+        self.log.lock().unwrap().push(format!("start:{}:{st}", current().path()));
+    }
+}
+/// A module created from an NDL description declares more start stages than every module
+/// created with `node`: all of its stages run, stage by stage over the whole tree.
+fn ndl_stages(deep: usize, plain: usize) -> Result<u64, String> {
+    use des::net::ndl::{Def, Registry};
+    let got = quiet_catch(move || -> Result<Vec<String>, String> {
+        let log: Log = Default::default();
+        let doc = "entry: Main\nmodules:\n  Main:\n    submodules:\n      d: Deep\n  Deep:\n    gates:\n    - g\n";
+        let def: Def = serde_yml::from_str(doc).map_err(|e| e.to_string())?;
+        let (l1, l2) = (log.clone(), log.clone());
+        let reg = Registry::new().symbol_fn("Main", move |_| Stg { log: l1.clone(), stages: 1 }).symbol_fn("Deep", move |_| Stg { log: l2.clone(), stages: deep });
+        let mut sim = Sim::new(());
+        sim.node("plain", Stg { log: log.clone(), stages: plain });
+        sim.node("net", des::net::ndl::Ndl::new(&mut { reg }, &def).map_err(|e| e.to_string())?).map_err(|e| e.to_string())?;
+        let r = Builder::seeded(1).quiet().build(sim.freeze()).run();
+        drop(r);
+        let g = log.lock().unwrap().clone();
+        Ok(g)
+    })
+    .map_err(|m| format!("panicked: {m}"))??;
+    let mut exp = vec![];
+    for st in 0..3 {
+        for (path, n) in [("plain", plain), ("net", 1), ("net.d", deep)] {
+            if st < n {
+                exp.push(format!("start:{path}:{st}"));
+            }
+        }
+    }
+    if got != exp {
+        return Err(format!("NDL-built module net.d with {deep} start stages next to a node()-built module with {plain}: start log {got:?}, expected {exp:?}"));
+    }
+    Ok(vcheck::fp(&got))
+}
+
 struct C12;
 
 type Log = Arc<Mutex<Vec<String>>>;
@@ -329,7 +376,7 @@ impl Property for C12 {
         format!(
             "every rooted forest with 1..={} nodes (names a, ab, b, a1, abc, c: prefix-sharing siblings and parent/child names) x every linear extension of parent-before-child as insertion order x every assignment of 0..3 start stages (a module declaring none is never started; for up to {} nodes; larger trees: all assignments with at most 2 nodes deviating from 1 stage); \
              oracle: at_sim_start log == stage-major, depth-first pre-order with siblings in creation order, exactly once per declared stage, all before the first event; at_sim_end exactly once per module after the last event; parent()/child()/path()/name() agree with the declared tree, and the module a lookup returns is the declared one (same id as that module sees for itself); \
-             duplicate path and missing parent rejected at depths 1..3; per (forest, insertion order) one more run in which, after every insertion, every path inserted so far and an orphan are offered again: each offer must be rejected and the run must be unchanged; one run in which every top-level subtree is created by a ModuleBlock through the scoped builder (root / node with relative paths); and one run in which one module's at_sim_end returns an error: run() reports it and every module is still torn down exactly once; non-trivial = forest with at least 3 nodes",
+             duplicate path and missing parent rejected at depths 1..3; start stages of a module built from an NDL description next to a node()-built module (7 combinations of stage counts); per (forest, insertion order) one more run in which, after every insertion, every path inserted so far and an orphan are offered again: each offer must be rejected and the run must be unchanged; one run in which every top-level subtree is created by a ModuleBlock through the scoped builder (root / node with relative paths); and one run in which one module's at_sim_end returns an error: run() reports it and every module is still torn down exactly once; non-trivial = forest with at least 3 nodes",
             tier.pick(5, 6),
             tier.pick(4, 4)
         )
@@ -338,10 +385,18 @@ impl Property for C12 {
         vec!["modules are created through the simulation builder (Sim::node); NDL-built trees are C18's subject".into()]
     }
     fn required_features(&self, _tier: Tier) -> Vec<&'static str> {
-        vec!["interleaved_children_of_different_parents", "multi_stage_module", "depth_three_tree", "builder_rejections", "several_roots", "rejected_offers_between_insertions", "tear_down_reporting_an_error", "module_without_start_stage", "subtrees_created_by_module_blocks"]
+        vec!["interleaved_children_of_different_parents", "multi_stage_module", "depth_three_tree", "builder_rejections", "several_roots", "rejected_offers_between_insertions", "tear_down_reporting_an_error", "module_without_start_stage", "subtrees_created_by_module_blocks", "start_stages_of_ndl_built_modules"]
     }
     fn explore(&self, ctx: &mut Ctx) {
         if ctx.is_first_shard() {
+            for (deep, plain) in [(1usize, 1usize), (2, 1), (3, 1), (3, 2), (2, 3), (0, 1), (3, 0)] {
+                ctx.out.evaluations += 1;
+                ctx.hit("start_stages_of_ndl_built_modules");
+                match ndl_stages(deep, plain) {
+                    Ok(o) => ctx.outcome(o),
+                    Err(d) => ctx.violation("violation", || json!({"ndl_stages": [deep, plain]}), d),
+                }
+            }
             for kind in 0..2u8 {
                 for depth in 1..=3 {
                     ctx.out.evaluations += 1;
@@ -460,6 +515,9 @@ impl Property for C12 {
         }
     }
     fn replay(&self, case: &Value) -> Result<(), String> {
+        if let Some(a) = case.get("ndl_stages") {
+            return ndl_stages(a[0].as_u64().unwrap() as usize, a[1].as_u64().unwrap() as usize).map(|_| ());
+        }
         if let Some(k) = case.get("rejection_kind") {
             return rejection(k.as_u64().unwrap() as u8, case["depth"].as_u64().unwrap() as usize);
         }
